@@ -111,6 +111,14 @@ type SecretKey struct {
 
 // deriveKey fills out the Key field.
 func (sk *SecretKey) deriveKey(password *[]byte) error {
+	// scrypt runs PBKDF2-HMAC-SHA256 keyed by the password, and HMAC pads its
+	// key with zero bytes: a password followed by zero bytes derives the very
+	// key of the password itself.  Such a password is never the one that was
+	// set (it cannot be set either), so it must not pass the digest check.
+	if n := len(*password); n > 0 && (*password)[n-1] == 0 {
+		return ErrInvalidPassword
+	}
+
 	key, err := scrypt.Key(*password, sk.Parameters.Salt[:],
 		sk.Parameters.N,
 		sk.Parameters.R,
